@@ -52,6 +52,12 @@ pub fn c01(ctx: &Ctx) -> PropResult {
     for src in crate::props6::concat_operand_kinds_family() {
         cases.push(run_case(src, "concat-operand-kinds"));
     }
+    for src in crate::props6::same_list_twice_family() {
+        cases.push(run_case(src, "same-list-twice"));
+    }
+    for src in crate::props6::library_result_identity_family() {
+        cases.push(run_case(src, "library-result-identity"));
+    }
     for src in crate::props6::condition_value_family() {
         cases.push(run_case(src, "condition-values"));
     }
@@ -571,6 +577,9 @@ pub fn c03(ctx: &Ctx) -> PropResult {
     for src in crate::props6::empty_body_family() {
         cases.push(run_case(src, "empty-body"));
     }
+    for src in crate::props6::same_list_twice_family() {
+        cases.push(run_case(src, "same-list-twice"));
+    }
     for src in crate::props6::returned_list_identity_family() {
         cases.push(run_case(src, "returned-list-identity"));
     }
@@ -595,7 +604,7 @@ pub fn c03(ctx: &Ctx) -> PropResult {
     let stats = run_cases(&ctx.driver, cases, &newline_twin_oracle, &no_known, ctx.threads);
     PropResult {
         stats,
-        rule: "random programs with 1-3 procedures (0-3 parameters, bodies with nested IF / all three loops / RETURN valued or bare / recursion), calls nested in expressions, argument counts off by one, undefined names; RETURN (valued, bare, with expression, absent) at each of 3 positions inside 6 nesting wrappers followed by probes; fixed scenarios for recursion, mutual recursion, scope isolation in both directions, by-value / by-reference, argument order; non-trivial = ended normally or with a runtime error; every parameter count in 0..3, 254..256 against argument counts 0..4, 253..257, 511, 512; bodies of one statement without braces (and their braced twins) touching names of the caller; eleven ways to get a list back from a procedure x six operations through the result / the original; empty bodies in six forms with parameters named like the caller's variables".into(),
+        rule: "random programs with 1-3 procedures (0-3 parameters, bodies with nested IF / all three loops / RETURN valued or bare / recursion), calls nested in expressions, argument counts off by one, undefined names; RETURN (valued, bare, with expression, absent) at each of 3 positions inside 6 nesting wrappers followed by probes; fixed scenarios for recursion, mutual recursion, scope isolation in both directions, by-value / by-reference, argument order; non-trivial = ended normally or with a runtime error; every parameter count in 0..3, 254..256 against argument counts 0..4, 253..257, 511, 512; bodies of one statement without braces (and their braced twins) touching names of the caller; eleven ways to get a list back from a procedure x six operations through the result / the original; empty bodies in six forms with parameters named like the caller's variables; the same list for two or three parameters of one call".into(),
         exhaustive: false,
         notes: vec![],
     }
@@ -680,6 +689,12 @@ pub fn c04(ctx: &Ctx) -> PropResult {
     for src in crate::props6::concat_operand_kinds_family() {
         cases.push(run_case(src, "concat-operand-kinds"));
     }
+    for src in crate::props6::same_list_twice_family() {
+        cases.push(run_case(src, "same-list-twice"));
+    }
+    for src in crate::props6::library_result_identity_family() {
+        cases.push(run_case(src, "library-result-identity"));
+    }
     // x <- y with x already a list and y another list with the same printed contents: x's cell takes y's elements (the
     // inner lists of y, its own zeros), whatever x held
     for (xs, ys) in [("[[1], [2]]", "[[1], [2]]"), ("[0, 5]", "[-0, 5]"), ("[[[]]]", "[[[]]]"), ("[\"a\", [1]]", "[\"a\", [1]]"), ("[1, 2]", "[1, 2]")] {
@@ -713,7 +728,7 @@ pub fn c04(ctx: &Ctx) -> PropResult {
     let stats = run_cases(&ctx.driver, cases, &no_panic_oracle, &no_known, ctx.threads);
     PropResult {
         stats,
-        rule: "random histories (length <= 12, thorough 30) over variables a, b (lists), c (string), d (alias): literal, assignment between variables, index read / write with 14 index values (-1, 0, 0.5, 1, 1.9, 2, LENGTH, LENGTH+0.5, LENGTH+1, LENGTH+2, NaN, inf, string, NULL), APPEND, INSERT, REMOVE, LENGTH, +, passing to a procedure that mutates then reassigns its parameter, nesting in a list, aliasing; all variables displayed after every step; plus every index value on a list and a non-ASCII string for read / write / INSERT / REMOVE; non-trivial = ended normally or with a runtime error; lists handed back by procedures (the parameter, an element, a local, through a second procedure, from a loop, a copy) changed through the result and through the original; FOR EACH while the body changes the list at the current, an earlier or a later position (index write, INSERT, REMOVE, APPEND, by name / alias, every ending); the operand-order family; statements whose operands change the length of the list they address; list + over 13 x 13 kinds of operand expression".into(),
+        rule: "random histories (length <= 12, thorough 30) over variables a, b (lists), c (string), d (alias): literal, assignment between variables, index read / write with 14 index values (-1, 0, 0.5, 1, 1.9, 2, LENGTH, LENGTH+0.5, LENGTH+1, LENGTH+2, NaN, inf, string, NULL), APPEND, INSERT, REMOVE, LENGTH, +, passing to a procedure that mutates then reassigns its parameter, nesting in a list, aliasing; all variables displayed after every step; plus every index value on a list and a non-ASCII string for read / write / INSERT / REMOVE; non-trivial = ended normally or with a runtime error; lists handed back by procedures (the parameter, an element, a local, through a second procedure, from a loop, a copy) changed through the result and through the original; FOR EACH while the body changes the list at the current, an earlier or a later position (index write, INSERT, REMOVE, APPEND, by name / alias, every ending); the operand-order family; statements whose operands change the length of the list they address; list + over 13 x 13 kinds of operand expression; the same list for several parameters; lists that come out of library calls which do not build them (MAP_GET, MAP_INSERT's result, REMOVE's result, indexed elements) changed through the result and through the container".into(),
         exhaustive: false,
         notes: vec![],
     }
@@ -782,6 +797,25 @@ pub fn c05(ctx: &Ctx) -> PropResult {
                 trees.push(ii(Box::new(PExpr::Bin(op, l(0), l(1))), l(2)));
             }
         }
+        // number literals as operands, after every kind of left operand (an index, a call, a group, a name, a literal):
+        // without blanks the operator stands directly between `]`, `)`, a word or a digit and a digit
+        for op in P_BINOPS {
+            let two = || Box::new(PExpr::Leaf("2".into()));
+            let lefts: Vec<Box<PExpr>> = vec![
+                Box::new(PExpr::Index(Box::new(PExpr::Leaf("lst".into())), l(0))),
+                Box::new(PExpr::Index(Box::new(PExpr::Index(Box::new(PExpr::Leaf("nst".into())), l(0))), l(1))),
+                l(0),
+                Box::new(PExpr::Leaf("v1".into())),
+                Box::new(PExpr::Leaf("7".into())),
+                Box::new(PExpr::Leaf("[5, 6]".into())),
+                Box::new(PExpr::Bin("+", l(0), l(1))),
+            ];
+            for left in lefts {
+                trees.push(PExpr::Bin(op, left.clone(), two()));
+                trees.push(PExpr::Bin(op, left.clone(), Box::new(PExpr::Un("-", two()))));
+                trees.push(PExpr::Bin(op, two(), left));
+            }
+        }
         // a + b * c and friends with every pair of arithmetic operators (rounding-sensitive valuations exist)
         for o1 in ["+", "-"] {
             for o2 in ["*", "/"] {
@@ -832,6 +866,32 @@ pub fn c05(ctx: &Ctx) -> PropResult {
             let b = pexpr_program(&full, val);
             cases.push(run_case(a, "minimal").aux(b));
         }
+    }
+    // long chains: the plain text against the text with every (or doubled) parentheses, however deep they nest
+    for (a, b) in crate::props6::long_chain_twins() {
+        cases.push(run_case(a, "long-chain").aux(b));
+    }
+    // the minimal text again without any blank the lexical grammar does not need (`l[1]-2`, `a<b`, `x*-y`)
+    for (ti, t) in trees.iter().enumerate().take(if ctx.quick() { 3_000 } else { 40_000 }) {
+        let min = t.render_min();
+        let mut tight = String::new();
+        let cs: Vec<char> = min.chars().collect();
+        for (i, c) in cs.iter().enumerate() {
+            if *c == ' ' {
+                let p = if i > 0 { cs[i - 1] } else { ' ' };
+                let n = if i + 1 < cs.len() { cs[i + 1] } else { ' ' };
+                let word = |ch: char| ch.is_alphanumeric() || ch == '_';
+                // keep the blank between two words, and where dropping it would join two operator characters into
+                // another token (`< -`, `- -` is fine but kept for readability of `<-`)
+                if (word(p) && word(n)) || (p == '<' && n == '-') || (p == '-' && n == '-') || p == '"' && n == '"' {
+                    tight.push(' ');
+                }
+            } else {
+                tight.push(*c);
+            }
+        }
+        let val = &VALUATIONS[ti % VALUATIONS.len()];
+        cases.push(run_case(pexpr_program(&tight, val), "minimal-tight").aux(pexpr_program(&t.render_full(), val)));
     }
     // operands that are plain variables: `x` and `(x)` are read at the same moment (twins of the operand-order family)
     for src in operand_order_family() {
@@ -909,7 +969,7 @@ pub fn c05(ctx: &Ctx) -> PropResult {
     let stats = run_cases(&ctx.driver, cases, &oracle, &no_known, ctx.threads);
     PropResult {
         stats,
-        rule: format!("{} expression trees: every ordered pair of the 13 binary operators in both shapes, every binary operator with unary -, NOT, assignment and indexing at each operand (thorough: every triple in all five shapes), random trees with 2-8 operators incl. calls, assignment and indexing; each rendered with only the required parentheses and fully parenthesised, run under {} valuations (distinct primes, zeros for errors, mixed kinds) with a probe procedure at every leaf so that order, once-ness and short-circuiting show in the output; implementation-only oracle: both renderings behave identically (output, end class, error kind); the minimal rendering is also compared with the model; chains of postfix operators (indexing of an indexing or of a call result, two and three deep, under every binary and unary operator, as assignment target) with valuations failing at the first, second or third step; every triple of operators in the balanced shape (a . b) . (c . d)", trees.len(), per_tree),
+        rule: format!("{} expression trees: every ordered pair of the 13 binary operators in both shapes, every binary operator with unary -, NOT, assignment and indexing at each operand (thorough: every triple in all five shapes), random trees with 2-8 operators incl. calls, assignment and indexing; each rendered with only the required parentheses and fully parenthesised, run under {} valuations (distinct primes, zeros for errors, mixed kinds) with a probe procedure at every leaf so that order, once-ness and short-circuiting show in the output; implementation-only oracle: both renderings behave identically (output, end class, error kind); the minimal rendering is also compared with the model; chains of postfix operators (indexing of an indexing or of a call result, two and three deep, under every binary and unary operator, as assignment target) with valuations failing at the first, second or third step; every triple of operators in the balanced shape (a . b) . (c . d); chains of 8 .. 70 operands plain / fully parenthesised / with doubled parentheses; the minimal text without any blank the lexical grammar does not need; number literals as operands after every kind of left operand", trees.len(), per_tree),
         exhaustive: false,
         notes: vec![],
     }
